@@ -43,7 +43,8 @@ CONFIGS = {
     # module-level functions with the documented string option W="inverse" (weights 1/target, per sample)
     "inverse": dict(shape=(2, 2), bounds="ub-finite", K=None, baseline="scalar", W="inverse"),
 }
-PROCS = ["gaussian", "poisson", "minvar", "minvar-L1", "excitation"]
+PROCS = ["gaussian", "poisson", "minvar", "minvar-L1", "minvar-scalar-norm", "excitation"]
+_SCALAR_NORM = [0.0]  # the user-supplied residual norm (one number for all rows) of the procedure "minvar-scalar-norm"
 SOLVERS = {"default": {}, "clarabel": dict(solver="CLARABEL")}
 
 
@@ -80,14 +81,16 @@ def units(tier, seed):
     out = []
     for cfg in CONFIGS:
         for proc in PROCS:
-            if cfg == "inverse" and proc in ("excitation", "minvar", "minvar-L1"):
+            if cfg == "inverse" and proc in ("excitation", "minvar", "minvar-L1", "minvar-scalar-norm"):
+                continue
+            if proc == "minvar-scalar-norm" and cfg != "plain":
                 continue
             if proc == "excitation":
                 L = 2 if tier == "quick" else 3
                 solvers = ["default"]
             else:
                 L = 3 if tier == "quick" else (5 if proc == "gaussian" else 4)
-                solvers = ["clarabel", "default"] if proc not in ("poisson", "minvar-L1") else (["default"] if proc == "poisson" else ["clarabel"])
+                solvers = ["clarabel", "default"] if proc not in ("poisson", "minvar-L1", "minvar-scalar-norm") else (["default"] if proc == "poisson" else ["clarabel"])
             for sol in solvers:
                 if sol == "default" and proc in ("gaussian", "minvar") and tier == "quick":
                     Lq = 2
@@ -111,6 +114,9 @@ def _call(est, proc, rows, W, bs, okw, use_W, L1=None):
         proc = "minvar"
         if L1 is not None:
             kw["L1"] = np.asarray(L1, dtype=float)
+    if proc == "minvar-scalar-norm":
+        proc = "minvar"
+        kw["norm"] = _SCALAR_NORM[0]
     if bs != "omit":
         kw["batch_size"] = bs
     if use_W == "inverse":
@@ -146,6 +152,9 @@ def _script(spec, proc, rows, W, bs, okw, use_W, L1=None):
         proc = "minvar"
         if L1 is not None:
             okw = dict(okw, L1=np.asarray(L1).tolist())
+    if proc == "minvar-scalar-norm":
+        proc = "minvar"
+        okw = dict(okw, norm=_SCALAR_NORM[0])
     s = B.script_est(spec) + "B = np.array(%r)\n" % (np.asarray(rows).tolist(),)
     kw = "".join(", %s=%r" % kv for kv in dict(okw, batch_size=bs).items() if kv[1] != "omit")
     if use_W == "inverse":
@@ -167,8 +176,11 @@ def run_unit(unit, rec):
     rows, Wp = _palette(spec)
     Abar, c0, lo, hi = B.model_of(spec)
     m, n = Abar.shape
-    unique_x = (n <= m) or proc in ("minvar", "minvar-L1")
-    tol = {"gaussian": 4e-2 if sol == "default" else 4e-4, "poisson": 1e-2, "minvar": 4e-2 if sol == "default" else 2e-3, "minvar-L1": 5e-3, "excitation": 2e-2}[proc]
+    unique_x = (n <= m) or proc in ("minvar", "minvar-L1", "minvar-scalar-norm")
+    if proc == "minvar-scalar-norm":
+        # one allowed residual for all rows: the largest best-fit error of the palette (every row is then feasible)
+        _SCALAR_NORM[0] = float(max(O.box_lsq_bounds(Abar, r_, lo, hi, c0=c0)[0] for r_ in rows)) + 0.05
+    tol = {"gaussian": 4e-2 if sol == "default" else 4e-4, "poisson": 1e-2, "minvar": 4e-2 if sol == "default" else 2e-3, "minvar-L1": 5e-3, "minvar-scalar-norm": 5e-3, "excitation": 2e-2}[proc]
     base = dict(config=cfg, procedure=proc, solver=sol)
     try:
         from dreye.api import _verif
@@ -259,7 +271,7 @@ def run_unit(unit, rec):
                 # batch-event model vs hook log (coverage + localisation)
                 if _verif:
                     ev = [e for e in _verif.drain() if e.get("kind") == "solve" and e.get("n_samples") == nS]
-                    if proc in ("minvar", "minvar-L1"):
+                    if proc in ("minvar", "minvar-L1", "minvar-scalar-norm"):
                         ev = [e for e in ev if e.get("where") == "lsq_linear_minimize"]
                     if ev and proc != "excitation":
                         nb = math.ceil(nS / eff) if eff <= nS else 1
